@@ -234,12 +234,16 @@ PROPS["C01"] = dict(
          "Payloads are self-describing (sender, seq, frame idx/count, length, checksum, keyed body); the oracle over the boundary log checks "
          "exactly-once, per-sender order and byte-exact integrity; loss = accepted id still missing after 6 s without progress while the monitor "
          "showed no disconnect (disconnected scenarios are discarded and counted). distinct = (config, seed) with >= 5 accepted messages. "
+         "(multisender) 2-3 tasks share one ROUTER(mandatory) or PUSH (clones) and send 40 (120) messages each to the same peer at the same "
+         "time over tcp/inproc/ipc with HWM 1/8/1000, all with send_multipart() except - on ROUTER - one task that sends frame by frame with "
+         "small pauses inside the open message: same oracle (whole messages, per-task order, exactly once). "
          "(thorough) six Miri shards (one scheduler seed each) of four tiny inproc histories (PUSH->PULL, ROUTER->DEALER, REQ<->REP, "
          "DEALER->ROUTER; 6 messages, HWM 1/8, 2-worker runtime): the whole socket stack under Miri's data-race detector, random preemption and "
          "weak-memory emulation, same oracle (Stacked Borrows off: the third-party fibre queue trips it).",
     assumptions=["'accepted' means send() returned Ok; a failed/cancelled send stays open (may or may not arrive)",
                  "loss is bounded progress: 6 s without any delivery after the sender stopped"],
     shards=lambda tier, seed: sharded("c01", _n(tier, 14, 16), _n(tier, 300, 1500))
+    + sharded("c01", 4, 600, extra=["--only", "multisender"], name="c01-multisender")
     + ([miri("c01", "c01-miri-%d" % i, ["--only", "miri", "--cases", 4, "--first", 4 * i, "--shard", "%d/6" % i],
              miriflags="-Zmiri-disable-isolation -Zmiri-disable-stacked-borrows -Zmiri-seed=%d" % i, env={"VH_SLOW": "100"}) for i in range(6)]
        if tier == "thorough" else []),
